@@ -604,11 +604,15 @@ def lib_cal(c):
 def probe_adjuster(f):
     if f is None:
         return None
-    b = f(0)
-    m = f(1) - b
-    for x in (2, 7, 1000):
-        if f(x) != m * x + b:
-            raise DumpError(f"length adjuster is not linear: f({x}) = {f(x)}, expected {m * x + b}")
+    try:
+        b = f(0)
+        m = f(1) - b
+        vals = {x: f(x) for x in (2, 7, 1000)}
+    except Exception as e:   # an adjuster that cannot be evaluated at a probe point has no recoverable slope / intercept
+        raise DumpError(f"length adjuster raised {e!r} at one of the probe points 0, 1, 2, 7, 1000")
+    for x, v in vals.items():
+        if v != m * x + b:
+            raise DumpError(f"length adjuster is not linear: f({x}) = {v}, expected {m * x + b}")
     if not isinstance(b, int) or not isinstance(m, int):
         raise DumpError(f"length adjuster does not return integers: f(0)={b!r}, f(1)={f(1)!r}")
     return [int(m), int(b)]
